@@ -4,6 +4,20 @@
 #include "romea_core_common/monitoring/RateMonitoring.hpp"
 #include "romea_core_common/diagnostic/CheckupRate.hpp"
 
+// Ambient state the library must not depend on: format flags left behind on a stream by an EARLIER print in the same thread. The
+// library's toStringInfoValue<T>() is called with this type before every op; with a fresh std::ostringstream per call (the
+// unchanged code) that is invisible, with a stream object reused across calls (seeded change c18d: a thread_local ostringstream
+// whose str("") / clear() reset does not restore the flags) every later value is printed with these flags.
+#include <iomanip>
+#include "romea_core_common/diagnostic/DiagnosticReport.hpp"
+struct AmbientStreamState {};
+inline std::ostream & operator<<(std::ostream & os, const AmbientStreamState &)
+{
+  return os << std::setprecision(3) << std::fixed << std::showpos << 1.5;
+}
+static void perturbAmbientStreamState() { (void)romea::core::toStringInfoValue(AmbientStreamState{}); }
+
+
 using namespace romea::core;
 using vp::Toks;
 
@@ -39,6 +53,7 @@ static std::string describe(const DiagnosticReport & r)
 
 static std::string handle(const Toks & t)
 {
+  perturbAmbientStreamState();
   const std::string & op = t[0];
   if (op == "rate.new" && t.size() == 2) {
     double r = vp::parseD(t[1]);
